@@ -400,7 +400,23 @@ def check_case(line, meta, hout, dline, dout, stats, notes):
         if divides and faulty and (o["s_mean"] != c["means"] or o["s_cov"] != c["covs"]):
             notes["fault:model_vs_impl_differ"] = notes.get("fault:model_vs_impl_differ", 0) + 1
         return probs
-    # ---- a successful step
+    # ---- the size is a multiple of the block size and every model call succeeds: the serial correction must
+    # equal the standard one.  Whether a correction was performed is read off the implementation's own output.
+    s_pts = o["s"]
+    performed = (o["xcols"] == s_pts * k and o["ycols"] == s_pts * k)     # it asked the measurement model about sigma points
+    changed = (o["s_mean"] != c["means"] or o["s_cov"] != c["covs"])
+    if "u_mean" in o:
+        u_changed = (o["u_mean"] != c["means"] or o["u_cov"] != c["covs"])
+        if (not performed or not changed) and u_changed:
+            um_ = [unhex(v) for v in o["u_mean"]]; uc_ = [unhex(v) for v in o["u_cov"]]
+            dm = max((abs(a - b) for a, b in zip(sm, um_) if math.isfinite(a) and math.isfinite(b)), default=float("nan"))
+            dc = max((abs(a - b) for a, b in zip(sc, uc_) if math.isfinite(a) and math.isfinite(b)), default=float("nan"))
+            return probs + [("prop", "size-multiple-not-corrected",
+                             "measurement size %d is a multiple of the block size %d but the serial correction %s, while the standard correction "
+                             "corrects it (mean differs by %.3g, covariance by %.3g)"
+                             % (msz, bs, "returned the predicted belief unchanged" if not changed else "did not evaluate the measurement model", dm, dc))]
+    if not performed:
+        return probs + [("prop", "no-sigma-points", "the serial correction changed the belief without evaluating the measurement model on %d sigma points (asked about %d / told %d columns)" % (s_pts * k, o["xcols"], o["ycols"]))]
     if not all(math.isfinite(v) for v in sm + sc):
         return probs + [("prop", "non-finite", "serial correction returned non-finite mean/covariance entries on a valid input")]
     if not ("u_mean" in o):
@@ -531,7 +547,7 @@ def run(ctx):
                 dlines.append(driver_line(c, parse_hout(ho, c)))
                 dmap.append(len(dlines) - 1)
                 continue
-            except (AssertionError, IndexError, ValueError):
+            except Exception:
                 pass
         dmap.append(None)
     from checks.c15 import run_driver_parallel
@@ -572,12 +588,12 @@ def run(ctx):
                 bump("corrected on a reused object (call %d)" % (ci + 1))
         if di is None:
             probs = [("prop", "impl-crash", "correction failed on a valid input: %s" % ho[:80])] if not ho.startswith("ok") else \
-                    [("corr", "harness-output", "harness output not understood")]
+                    [("prop", "unreadable-result", "output of the corrections has an unexpected shape: %s" % ho[:120])]
         else:
             try:
                 probs = check_case(sl, meta, ho, dlines[di], dout[di], stats, notes)
-            except (ValueError, OverflowError, ZeroDivisionError, TypeError) as e:
-                probs = [("prop", "unreadable-result", "results of the corrections could not be evaluated (%s: %s)" % (type(e).__name__, str(e)[:80]))]
+            except Exception as e:      # a malformed / short / non-numeric output is a finding about this case, never a crash of the check
+                probs = [("prop", "unreadable-result", "results of the corrections could not be evaluated (%s: %s); output: %s" % (type(e).__name__, str(e)[:80], ho[:120]))]
         for kind, key2, what in probs:
             (corr_bad if kind == "corr" else prop_bad).append((key2, "call %d of %d: %s" % (ci + 1, len(singles), what), hline, singles, hout[oi]))
     seen = set()
